@@ -842,8 +842,15 @@ func (h *c16) monitorState(kind, cls string) {
 	}
 	for id, x := range nd {
 		if h.gDisc[id] != x {
-			newDisc = true
-			h.r.Violate("C16/distribution_eq_sum_of_votes/gauge-power/"+oc,
+			q := oc
+			if h.gDisc[id] != "" && oc != "staking-hook" {
+				// this gauge was already off; Merge's dropping of non-positive sums reshapes the
+				// difference when a later vote/revoke touches the gauge
+				q = "residue-of-earlier-discrepancy"
+			} else {
+				newDisc = true
+			}
+			h.r.Violate("C16/distribution_eq_sum_of_votes/gauge-power/"+q,
 				fmt.Sprintf("after `%s`: distribution power of gauge %d minus the sum over votes = %s", kind, id, x), h.lines...)
 		}
 	}
